@@ -233,6 +233,9 @@ class Poll(BasePoller):
 
     def _updateRegistration(self, fd):
         fileno = fd.fileno() if not isinstance(fd, int) else fd
+        if fileno < 0:
+            # already closed: use the number it was registered under
+            fileno = next((k for k, v in self._map.items() if v is fd), fileno)
 
         with contextlib.suppress(KeyError, ValueError):
             self._poller.unregister(fileno)
